@@ -317,7 +317,13 @@ def c11_path(ctx):
     c18_3(ctx)
     c03_1(ctx)
 
-RULES = [c11_1, c11_2, c11_3, c11_4, c11_5, c11_consume, c11_values, c11_state, c11_path]
+def c11_symbols(ctx):
+    """A string or value written through a preprocessor symbol is the symbol's text, character for character (C09.1: literal replacement)."""
+    from rules.c09 import c09_1
+    c09_1(ctx)
+
+
+RULES = [c11_1, c11_2, c11_3, c11_4, c11_5, c11_consume, c11_values, c11_state, c11_path, c11_symbols]
 
 _D = 'assembler/line_object/data_line.py'
 _F = 'assembler/line_object/directive_line/fill_data.py'
